@@ -1,5 +1,6 @@
 import Driver.Util
 import Driver.SM
+import Driver.Ssbs
 open Lean Drv
 
 /-- dispatch on the prefix of "op" -/
@@ -8,6 +9,7 @@ def dispatch (j : Json) : R Json := do
   let pre := (op.splitOn ".").head!
   match pre with
   | "sm" | "dec" => SMD.handle op j
+  | "ssbs" => SsbsD.handle op j
   | _ => throw s!"unknown op {op}"
 
 partial def loop (h : IO.FS.Stream) (out : IO.FS.Stream) : IO Unit := do
